@@ -11,6 +11,7 @@ import (
 	"errors"
 	"fmt"
 	"html"
+	"html/template"
 	"net"
 	"net/url"
 	"regexp"
@@ -39,6 +40,14 @@ var (
 		"https://localhost/cb", "http://localhost/a/b"}
 	c03Custom = []string{"myapp://cb", "com.example.app:/oauth2redirect", "custom://auth/callback"}
 	c03Weird  = []string{"HTTP://rp.example/upper", "https://rp.example:port/cb", "http:opaque.example/cb", "HTTPS://rp.example/upper"}
+	// (round 3) unusual-but-legal registrations: mixed-case schemes, IPv6 loopback spellings, ports, userinfo, trailing dots,
+	// percent-encoded path segments, a fragment, the empty string
+	c03Odd = []string{"HtTpS://rp.example/mixed", "Http://localhost/cb", "hTTp://127.0.0.1:9000/cb", "http://[0:0:0:0:0:0:0:1]:8080/cb", "http://[::1]:8080/cb",
+		"http://127.0.0.1:0/cb", "https://user@rp.example/cb", "http://user:pw@localhost/cb", "https://rp.example./cb", "http://localhost./cb",
+		"https://rp.example/a%2Fb", "http://localhost/c%62", "https://rp.example/caf%C3%A9", "https://rp.example/cb#frag", "https://rp.example:443/cb",
+		"http://rp.example:80/cb", "https://RP.EXAMPLE/cb", "http://[::ffff:127.0.0.1]/cb", "", "https://rp.example/cb/../cb", "https://rp.example//cb"}
+	c03OddGlobs = []string{"https://rp.example/\\*", "https://rp.example/[a-c]b", "https://rp.example/c?", "https://rp.example/{cb,x}", "**", "*", "",
+		"https://rp.example/cb\\", "http://localhost:{1234,8080}/cb", "https://rp.example/[!a]b", "https://*/cb", "http*://rp.example/cb", "https://rp.example/[a-", "{", "https://rp.example/**/cb"}
 	c03Globs  = []string{"https://*.rp.example/cb", "https://rp.example/*", "https://rp.example/**", "http://localhost:*/cb", "myapp://*",
 		"[", "https://rp.example/cb[", "https://rp.example/{a,b}/cb", "http://*.insecure.example/cb", "http://**"}
 	c03Foreign = []string{"https://evil.example/steal", "https://evil.example/cb?x=1", "javascript:alert(1)", "data:text/html,x", "/relative", "//evil.example/cb",
@@ -83,18 +92,42 @@ func c03GenClient(r *hx.Rand, i int) *c03Client {
 			u = c03Loopback[r.Intn(len(c03Loopback))]
 		case k < 90:
 			u = c03Custom[r.Intn(len(c03Custom))]
-		default:
+		case k < 94:
 			u = c03Weird[r.Intn(len(c03Weird))]
+		default:
+			u = c03Odd[r.Intn(len(c03Odd))]
 		}
 		if !seen[u] {
 			seen[u] = true
 			c.Redirects = append(c.Redirects, u)
 		}
 	}
+	odd := ""
+	switch k := r.Intn(100); {
+	case k < 6: // a registration made of unusual spellings only
+		c.Redirects = nil
+		for j := 1 + r.Intn(3); j > 0; j-- {
+			c.Redirects = append(c.Redirects, c03Odd[r.Intn(len(c03Odd))])
+		}
+		odd = "-odd"
+	case k < 10: // the same URI registered twice
+		c.Redirects = append(c.Redirects, c.Redirects[0])
+		odd = "-dup"
+	case k < 13: // nothing registered (globs may still be)
+		c.Redirects = nil
+		odd = "-empty"
+	}
 	if r.Chance(35) {
 		c.UseGlobs = true
 		for k := r.Intn(3); k >= 0; k-- {
+			if r.Chance(25) {
+				c.Globs = append(c.Globs, c03OddGlobs[r.Intn(len(c03OddGlobs))])
+				continue
+			}
 			c.Globs = append(c.Globs, c03Globs[r.Intn(len(c03Globs))])
+		}
+		if r.Chance(5) {
+			c.Globs = nil // opted in, no patterns
 		}
 	}
 	tag := map[op.ApplicationType]string{op.ApplicationTypeWeb: "web", op.ApplicationTypeUserAgent: "ua", op.ApplicationTypeNative: "nat"}[app]
@@ -104,6 +137,7 @@ func c03GenClient(r *hx.Rand, i int) *c03Client {
 	if c.UseGlobs {
 		tag += "-glob"
 	}
+	tag += odd
 	return &c03Client{c: c, tag: tag}
 }
 
@@ -119,7 +153,14 @@ func c03IsLoopbackURI(u string) bool {
 // c03Request picks the requested redirect_uri for client fc and names its class
 func c03Request(r *hx.Rand, fc *c03Client) (uri, class string) {
 	c := fc.c
+	if len(c.Redirects) == 0 { // nothing registered: whatever is asked for must be refused (unless an opted-in glob matches)
+		all := append(append(append(append([]string{""}, c03HTTPS...), c03Loopback...), c03Custom...), c03GlobTargets...)
+		return all[r.Intn(len(all))], "none-registered"
+	}
 	reg := c.Redirects[r.Intn(len(c.Redirects))]
+	if reg == "" && r.Chance(50) {
+		return "", "missing" // the empty string is "registered": a missing redirect_uri must still be refused
+	}
 	var loops []string
 	for _, u := range c.Redirects {
 		if c03IsLoopbackURI(u) {
@@ -181,7 +222,10 @@ func c03Request(r *hx.Rand, fc *c03Client) (uri, class string) {
 			return p.String(), "loop-port"
 		}
 	case k < 68: // near misses of a registered URI
-		switch r.Intn(12) {
+		if reg == "" {
+			return c03Foreign[r.Intn(len(c03Foreign))], "foreign"
+		}
+		switch r.Intn(16) {
 		case 0:
 			return reg + "/", "near-slash"
 		case 1:
@@ -210,8 +254,19 @@ func c03Request(r *hx.Rand, fc *c03Client) (uri, class string) {
 			return strings.Replace(reg, "://", "://evil.example/", 1), "near-host-prefix"
 		case 10:
 			return strings.TrimSuffix(reg, reg[len(reg)-1:]), "near-truncated"
-		default:
+		case 11:
 			return " " + reg, "near-space"
+		case 12:
+			return strings.Replace(reg, ".example", ".example.", 1), "near-trailing-dot"
+		case 13:
+			return strings.Replace(strings.Replace(reg, "/cb", "/c%62", 1), "/a/b", "/a%2Fb", 1), "near-escaped"
+		case 14:
+			if pu, err := url.Parse(reg); err == nil && pu.Host != "" && pu.Port() == "" {
+				return strings.Replace(reg, pu.Host, pu.Host+":"+hx.Pick(r, "443", "80", "8443"), 1), "near-port"
+			}
+			return reg + "?", "near-empty-query"
+		default:
+			return reg + "/../x", "near-dotdot"
 		}
 	case k < 80 && c.UseGlobs:
 		return c03GlobTargets[r.Intn(len(c03GlobTargets))], "glob-target"
@@ -335,6 +390,22 @@ func c03Observe(l *hx.Line, resp *opbed.Resp) (extra []string, loc string) {
 	}
 	l.S("obs", "page")
 	return nil, ""
+}
+
+// c03TmplAction: ORACLE for html/template - what the engine renders into an `action="{{.}}"` attribute for this URI (its contextual
+// URL filter replaces URLs with a scheme other than http / https / mailto by "#ZgotmplZ"); computed with a template of the
+// harness, not with the provider's form_post template
+var c03ActionTmpl = template.Must(template.New("a").Parse(`<form action="{{.}}">`))
+
+func c03TmplAction(uri string) string {
+	var b strings.Builder
+	if err := c03ActionTmpl.Execute(&b, uri); err != nil {
+		return "!" + err.Error()
+	}
+	if m := c03FormAction.FindStringSubmatch(b.String()); m != nil {
+		return html.UnescapeString(m[1])
+	}
+	return "!nomatch"
 }
 
 func c03Fault(r *hx.Rand) (string, error) {
@@ -474,6 +545,7 @@ func c03Stream(r *hx.Rand, tier string, n int, w *bufio.Writer) map[string]int {
 			}
 			// a signed request object that overrides redirect_uri (and state / response_mode): validation must see the override
 			formURI, roOK, roURI, roState, roMode := uri, false, "", "", ""
+			roIss, roAudOK, roSig, roCid, roRt := "", false, false, "", ""
 			if roSupported && clientID == fc.c.ID && r.Chance(22) {
 				var roClass string
 				roURI, roClass = c03Request(r, fc)
@@ -494,13 +566,24 @@ func c03Stream(r *hx.Rand, tier string, n int, w *bufio.Writer) map[string]int {
 				}
 				key, kid := hx.Keys()[1], "k-"+clientID
 				roOK = true
-				switch r.Intn(12) {
+				roIss, roAudOK, roSig, roCid, roRt = clientID, true, true, clientID, rt
+				switch r.Intn(14) {
 				case 0:
-					key, roOK = hx.Keys()[0], false // signed by somebody else
+					key, roOK, roSig = hx.Keys()[0], false, false // signed by somebody else
 				case 1:
-					claims["aud"], roOK = []string{"https://other.example"}, false
+					claims["aud"], roOK, roAudOK = []string{"https://other.example"}, false, false
 				case 2:
-					claims["iss"], roOK = "somebody", false
+					claims["iss"], roOK, roIss = "somebody", false, "somebody"
+				case 3: // a request object made for another client
+					other := cls[r.Intn(len(cls))].c.ID
+					claims["client_id"], roCid = other, other
+					claims["iss"], roIss = other, other
+					kid = "k-" + other
+					roOK = other == clientID
+				case 4: // a request object made for another response type
+					roRt = hx.Pick(r, "code", "id_token", "id_token token")
+					claims["response_type"] = roRt
+					roOK = roRt == rt
 				}
 				payload, _ := json.Marshal(claims)
 				tok, err := hx.Sign(key, "RS256", kid, payload)
@@ -542,7 +625,8 @@ func c03Stream(r *hx.Rand, tier string, n int, w *bufio.Writer) map[string]int {
 			l := line("authorize").S("cls", tag+":"+class).S("shape", c03Shape(regClient, uri)).S("client", clientID).S("uri", uri).S("rt", rt).S("mode", mode).S("state", state).
 				L("scopes", strings.Fields(scope)).L("prompt", strings.Fields(prompt)).S("hint", hint).S("parse", parse)
 			if len(request) > 10 {
-				l.S("request", "ro").S("form.uri", formURI).B("ro.ok", roOK).S("ro.uri", roURI).S("ro.state", roState).S("ro.mode", roMode)
+				l.S("request", "ro").S("form.uri", formURI).B("ro.ok", roOK).S("ro.uri", roURI).S("ro.state", roState).S("ro.mode", roMode).
+					S("ro.iss", roIss).B("ro.audok", roAudOK).B("ro.sig", roSig).S("ro.cid", roCid).S("ro.rt", roRt)
 			} else {
 				l.S("request", request)
 			}
@@ -636,8 +720,16 @@ func c03Stream(r *hx.Rand, tier string, n int, w *bufio.Writer) map[string]int {
 				l.S("f.token", name)
 			}
 			owner := byID[a.client]
-			l.S("cls", owner.tag+":"+a.class+":"+cls2).S("shape", c03Shape(owner.c, a.uri)).S("uri", a.uri)
-			resp = bed.Do(bed.Get("/authorize/callback", url.Values{"id": {a.id}}, ""))
+			l.S("cls", owner.tag+":"+a.class+":"+cls2).S("shape", c03Shape(owner.c, a.uri)).S("uri", a.uri).S("t.act", c03TmplAction(a.uri))
+			cbVals := url.Values{"id": {a.id}}
+			if r.Chance(20) { // stray parameters on the callback: the answer must still go to the STORED redirect URI
+				cbVals.Set("redirect_uri", hx.Pick(r, "https://evil.example/steal", "http://127.0.0.1:1/cb", "myapp://evil"))
+				cbVals.Set("state", "evil-state")
+				cbVals.Set("response_mode", hx.Pick(r, "query", "fragment", "form_post"))
+				cbVals.Set("client_id", hx.Pick(r, "c0", "c1", "nobody"))
+				l.S("cb.extra", "1")
+			}
+			resp = bed.Do(bed.Get("/authorize/callback", cbVals, ""))
 			bed.Store.ClearFaults()
 			a.calledBack++
 			extra, _ = c03Observe(l, resp)
